@@ -108,6 +108,14 @@ check("C11", "other",
       "points (the implementation's tables have none) are outside.",
       E2_NOTE, E2_TECH, "E2", "DESIGN.md §3 C11")
 
+check("C13", "other",
+      "Partial: scrut's own byte-level transformations on the MIR — replace_crlf ≡ 'drop CR before LF' (all byte strings <= 5/6) and "
+      "its call depth does not grow with the number of pairs; BashRunner::run hands the expression to the shell verbatim for "
+      "expressions containing any template placeholder token in symbolic context; iterate_divided_output attributes to each test "
+      "exactly its bytes and exit code (payloads with/without final newline, look-alike divider lines with a foreign salt stay output). "
+      "Pipes, merge order of stdout/stderr, megabyte payloads and real exit codes of processes are not claimed.",
+      E2_NOTE, E2_TECH, "E2", "DESIGN.md §3 C13")
+
 NA_LIST = [
     ("C07", "Cram parser: every clause is about string contents inside one regex-calling function; out of reach of Kani (heap/regex) and of control-flow-only MIR execution."),
     ("C12", "Shell-state carry-over is implemented by a bash script; no encoding of bash semantics is available here."),
@@ -128,7 +136,7 @@ def main():
             "guard": "scrut_verif",
             "enable": "RUSTFLAGS='--cfg scrut_verif' (set by lib/common.py for the native crate and the Kani harness crate)",
             "baseline_off_cmd": "cd /repo && cargo nextest run --workspace --no-fail-fast --tool-config-file pb:/w/lib/nextest.toml --profile pb --test-threads 8 --offline || cargo test --workspace --no-fail-fast --offline",
-            "source_commits": ["c78dcdb", "fe969de"],
+            "source_commits": ["c78dcdb", "fe969de", "5f0c96c"],
             "add_only": True,
         },
         "engines": [
